@@ -114,5 +114,20 @@ structure Wf (s : IdStore) : Prop where
   below : ∀ e ∈ s.index, e.1.1 < s.forest.next ∧ e.2 < s.forest.next
   keys : (s.index.map (·.1)).Nodup
 
+/-- What a parsed tree has to satisfy for the forest invariant (specification; the parser only
+    builds such trees, `Model/Parse.lean`: ordered, unique keys, text consolidated). Only the values
+    matter; the numbering is the one `parseInto` will use. -/
+def parseOK (s : IdStore) (t : Tree) : Prop :=
+  validTree (!s.forest.everOff) (HTree.ofTree s.forest.next t) = true
+
+/-- A step whose parse (if it is one) yields a valid tree. -/
+def stepOK (s : IdStore) : IdOp → Prop
+  | .call _ => True
+  | .parse t => s.parseOK t
+
+def runOK (s : IdStore) : List IdOp → Prop
+  | [] => True
+  | o :: os => s.stepOK o ∧ runOK (s.step o) os
+
 end IdStore
 end XotModel
